@@ -184,8 +184,22 @@ def histOut (j : Json) (info full : Res (List Nat)) (specVal : String → Option
     let steps ← asList parseHStep h
     return [("hist", Json.arr (runHist info full specVal steps ⟨none, []⟩ ⟨none⟩ (.known none)).toArray)]
 
+/-- op "shape": which methods the class body defines for the import-time flags (C13_class_level) -/
+def handleShape (j : Json) : R Json := do
+  let ir ← boolF j "importRollup"
+  let is ← boolF j "importSmaps"
+  let fullIsInfo := !(cfg.fullGuard.holds ir is) && cfg.fullElseIsInfo
+  let fullDefined := cfg.fullGuard.holds ir is || cfg.fullElseIsInfo
+  let m := jObj [("fullIsInfo", Json.bool fullIsInfo), ("fullDefined", Json.bool fullDefined),
+                 ("hasMaps", Json.bool (memoryMapsDefined cfg ir is))]
+  -- the property: with /proc/pid/smaps, roll-up or not, the extended figures and memory_maps exist
+  let sp := if is then jObj [("fullIsInfo", Json.bool false), ("fullDefined", Json.bool true), ("hasMaps", Json.bool true)]
+            else Json.null
+  return jObj [("model", m), ("spec", sp)]
+
 def handle (_ : Unit) (j : Json) : R (Unit × Json) := do
   let op ← strF j "op"
+  if op == "shape" then return ((), ← handleShape j)
   let pagesize ← natF j "pagesize"
   let zombie ← boolF j "zombie"
   let hasRollup ← boolF j "hasRollup"
@@ -201,9 +215,15 @@ def handle (_ : Unit) (j : Json) : R (Unit × Json) := do
     let full := memoryFullInfo cfg hasRollup pagesize rollup smaps statm
     let ho ← histOut j info full (fun _ => none)
     return ((), jObj ([("model", jObj (modelAll probe zombie hasRollup pagesize rollup smaps statm pcts)),
+      ("fullOther", jObj [("model", jRes (jList jNat) (memoryFullInfo cfg (!hasRollup) pagesize rollup smaps statm)), ("spec", Json.null)]),
       ("readings", readings smaps)] ++ ho))
   else if op == "case" then
-    let ms ← listF parseMapping j "ms"
+    let ms0 ← listF parseMapping j "ms"
+    -- optional: the kernel's fine-grained PSS per mapping (C13_full_info_two_sources): the listing shows
+    -- `fine / pssUnit`, the roll-up (unless given as a record of its own) is `rollupKVsFine`
+    let fine : Option (List Nat) ← optF (asList asNat) j "fine"
+    let fms : Option (List FineMapping) := fine.map fun fs => (ms0.zip fs).map fun (m, f) => ⟨m, f⟩
+    let ms : List Mapping := match fms with | some l => shownAll l | none => ms0
     let cols ← listF asNat j "statm"
     let st : Statm ← match cols with
       | [a, b, c, d, e, f, g] => pure (⟨a, b, c, d, e, f, g⟩ : Statm)
@@ -211,7 +231,11 @@ def handle (_ : Unit) (j : Json) : R (Unit × Json) := do
     let smaps := renderSmaps ms
     let statm := renderStatm st
     -- optional: the roll-up as a record of its own (keys / values independent of the mappings)
-    let rkv : Option (List KV) ← optF (asList parseKV) j "rollupKV"
+    let rkv0 : Option (List KV) ← optF (asList parseKV) j "rollupKV"
+    let rkv : Option (List KV) := match rkv0, fms with
+      | some kvs, _ => some kvs
+      | none, some l => some (rollupKVsFine l)
+      | none, none => none
     let rrange : Option (List Nat) ← optF (asList asNat) j "rollupRange"
     let (rlo, rhi) : Nat × Nat := match rrange with
       | some [a, b] => (a, b)
@@ -234,14 +258,34 @@ def handle (_ : Unit) (j : Json) : R (Unit × Json) := do
       else if wf || wfG then jObj [("ok", jList jGRow (specGrouped rowKeys.length rows))] else Json.null
     -- uss / pss / swap: from the roll-up record when it is the source (C13_full_info_from_rollup),
     -- else the sums over the mappings (C13_full_info_sums / C13_rollup_agrees)
-    let fromRec : Option (List KV) := if hasRollup && mode == "data" then rkv else none
-    let fullVals : Option (List Nat) := match fromRec with
+    let fullValsFor (has : Bool) : Option (List Nat) :=
+      match (if has && mode == "data" then rkv else none) with
       | some kvs =>
         if wfRollupRec kvs then
           let f := specFullRollup kvs
           some (specMemInfo pagesize st ++ [f.uss, f.pss, f.swap])
         else none
-      | none => if ms.isEmpty || wf then some (specFullInfo pagesize st ms) else none
+      | none =>
+        -- a roll-up rendered as the field-wise sums promises what the listing promises (C13_rollup_agrees)
+        if ms.isEmpty || wf then some (specFullInfo pagesize st ms) else none
+    let fromRec : Option (List KV) := if hasRollup && mode == "data" then rkv else none
+    let fullVals : Option (List Nat) := fullValsFor hasRollup
+    let jFull (o : Option (List Nat)) : Json := match o with | some v => jObj [("ok", jList jNat v)] | none => Json.null
+    -- the same process asked through the OTHER source (call-time flag flipped)
+    let fullOther := jObj [("model", jRes (jList jNat) (memoryFullInfo cfg (!hasRollup) pagesize rollup smaps statm)),
+                           ("spec", jFull (fullValsFor (!hasRollup)))]
+    -- the same process asked through a class whose body was evaluated with other import-time flags
+    let cls : Option (List Bool) ← optF (asList asBool) j "cls"
+    let fullCls : List (String × Json) := match cls with
+      | some [ir, is] =>
+        [("fullCls", jObj [("model", jRes (jList jNat) (memoryFullInfoCls cfg ir is pagesize rollup smaps statm)),
+                           ("spec", if is then jFull (fullValsFor ir) else Json.null)])]
+      | _ => []
+    -- both sources of one process (fine-grained PSS): the promised difference (C13_full_info_sources_within_n_kB)
+    let fineInfo : List (String × Json) := match fms with
+      | some l => [("fine", jObj [("listed", jNat (1024 * pssListed (fines l))), ("rolled", jNat (1024 * pssRolled (fines l))),
+                                  ("n", jNat l.length), ("applies", Json.bool (wf && (keysOf ms).contains bPss && rkv0.isNone))])]
+      | none => []
     let spec := jObj [
       ("info", jObj [("ok", jList jNat (specMemInfo pagesize st))]),
       ("full", match fullVals with | some v => jObj [("ok", jList jNat v)] | none => Json.null),
@@ -262,9 +306,9 @@ def handle (_ : Unit) (j : Json) : R (Unit × Json) := do
       ("files", jObj [("smaps", jBytes smaps), ("statm", jBytes statm), ("rollup", jBytes rb)]),
       ("wf", Json.bool wf), ("wfOwn", Json.bool (wfSmapsOwn false ms)), ("uniform", Json.bool (uniformKeys ms)),
       ("nostale", Json.bool (noStale [] ms)), ("inherit", inh), ("readings", readings smaps),
-      ("rollupRec", Json.bool fromRec.isSome),
+      ("rollupRec", Json.bool fromRec.isSome), ("fullOther", fullOther),
       ("model", jObj (modelAll probe zombie hasRollup pagesize rollup smaps statm pcts)),
-      ("spec", spec)] ++ ho))
+      ("spec", spec)] ++ fullCls ++ fineInfo ++ ho))
   else .error s!"unknown op {op}"
 
 def main : IO Unit := Proto.run () (total handle)
